@@ -154,6 +154,14 @@ impl<'a> Gen<'a> {
         self.uni.keys[k].expr.clone()
     }
 
+    /// A key nobody has used yet in this descriptor, of the given form (heavy shapes need many).
+    pub fn fresh_key(&mut self, form: KeyForm) -> String {
+        let owner = self.rng.below(self.uni.n_signers as u64) as usize;
+        let k = self.uni.new_key(owner, form);
+        self.keys_used.push(k);
+        self.uni.keys[k].expr.clone()
+    }
+
     pub fn hash(&mut self) -> String {
         if self.hashes_used.len() >= self.max_hashes || (!self.hashes_used.is_empty() && self.rng.chance(1, 10)) {
             let h = *self.rng.pick(&self.hashes_used);
@@ -417,6 +425,8 @@ impl<'a> Gen<'a> {
                     it.next();
                 }
                 let s = match tok {
+                    "U" => self.fresh_key(KeyForm::Uncompressed),
+                    "N" => self.fresh_key(KeyForm::Single),
                     "K" => self.key(),
                     "H" => self.hash(),
                     "A" => self.after(false),
@@ -446,6 +456,11 @@ impl<'a> Gen<'a> {
                 (self.b(d, false), "typed")
             }
             1 => {
+                if self.rng.chance(1, 24) {
+                    if let Some(t) = heavy_shape(ctx, self.rng.below(8)) {
+                        return (self.fill_shape(&t), "heavy");
+                    }
+                }
                 let t = *self.rng.pick(SHAPES);
                 (self.fill_shape(t), "shape")
             }
@@ -586,9 +601,68 @@ impl<'a> Gen<'a> {
     }
 }
 
+fn rep(item: &str, n: usize, sep: &str) -> String { (0..n).map(|_| item.to_string()).collect::<Vec<_>>().join(sep) }
+
+/// Shapes near a consensus or standardness resource limit of their context (size dimension of the
+/// workload): many keys, many key hashes, many signature checks, big multisigs on both sides of a
+/// disjunction. `@U` = fresh uncompressed key, `@N` = fresh single key.
+pub fn heavy_shape(ctx: MsCtx, which: u64) -> Option<String> {
+    fn chain(wrap_v: &str, last: &str, n: usize) -> String {
+        // and_v(v:X,and_v(v:X,...,last))
+        let mut s = last.to_string();
+        for _ in 0..n {
+            s = format!("and_v({},{})", wrap_v, s);
+        }
+        s
+    }
+    fn or_chain(item: &str, n: usize) -> String {
+        let mut s = item.to_string();
+        for _ in 0..n {
+            s = format!("or_d({},{})", item, s);
+        }
+        s
+    }
+    match (ctx, which) {
+        // redeemScript a few bytes around 520 with several uncompressed keys
+        (MsCtx::Legacy, 0) => Some(format!("and_v(v:multi(1,{}),and_v(v:pk(@N),pkh(@N)))", rep("@U", 7, ","))),
+        (MsCtx::Legacy, 1) => Some(format!("and_v(v:multi(1,{}),pk(@N))", rep("@U", 7, ","))),
+        // scriptSig around the 1650-byte standardness limit
+        (MsCtx::Legacy, 2) => Some(chain("v:pkh(@N)", "pkh(@N)", 12)),
+        (MsCtx::Legacy, 3) => Some(chain("v:pkh(@N)", "pkh(@N)", 11)),
+        // sigops around the P2SH limit of 15
+        (MsCtx::Legacy, 4) => Some(or_chain("pkh(@N)", 15)),
+        (MsCtx::Legacy, 5) => Some(or_chain("pkh(@N)", 14)),
+        (MsCtx::Legacy, _) => Some(format!("or_d(multi(1,{}),multi(2,{}))", rep("@N", 7, ","), rep("@N", 7, ","))),
+        // executed opcodes around 201 (the dissatisfied arm of the or_i runs its big multi as well)
+        (MsCtx::Segwit, 0) | (MsCtx::Segwit, 1) => Some(format!(
+            "or_b(or_i(and_v(v:multi(1,{}),pk(@N)),thresh(2,pkh(@N),{})),a:and_n(pk(@N),multi(1,{})))",
+            rep("@N", 20, ","),
+            rep("a:pkh(@N)", 21, ","),
+            rep("@N", 20, ",")
+        )),
+        (MsCtx::Segwit, 2) => Some(format!("or_d(multi(3,{}),and_v(v:multi(2,{}),older(7)))", rep("@N", 20, ","), rep("@N", 20, ","))),
+        (MsCtx::Segwit, 3) => Some(format!("thresh(11,pk(@N),{})", rep("s:pk(@N)", 20, ","))),
+        (MsCtx::Segwit, 4) => Some(chain("v:pkh(@N)", "pk(@N)", 40)),
+        (MsCtx::Segwit, _) => Some(format!("andor(multi(1,{}),older(3),multi(1,{}))", rep("@N", 20, ","), rep("@N", 20, ","))),
+        // many keys in one tapscript leaf
+        (MsCtx::Tap, 0) => Some(format!("multi_a(3,{})", rep("@N", 60, ","))),
+        (MsCtx::Tap, 1) => Some(format!("and_v(v:multi_a(2,{}),pk(@N))", rep("@N", 40, ","))),
+        (MsCtx::Tap, 2) => Some(format!("thresh(5,pk(@N),{})", rep("s:pk(@N)", 30, ","))),
+        (MsCtx::Tap, _) => Some(chain("v:pkh(@N)", "pk(@N)", 30)),
+        _ => None,
+    }
+}
+
 /// Curated shapes: dissatisfiable fragments under every disjunction/threshold form, timelocks inside
 /// dissatisfactions (#895 class), hash dissatisfactions, K-typed combinators, mixed units.
 pub const SHAPES: &[&str] = &[
+    // top level that is not of type B (a key expression, a W or a V): a parser that accepts these
+    // must still get everything else right about them
+    "pk_k(@K)",
+    "and_v(v:pk(@K),pk_k(@K))",
+    "a:pk(@K)",
+    "or_c(pk(@K),v:pk(@K))",
+    "pk_h(@K)",
     // one arm / one threshold child mixes lock units: the fragment as a whole fails the lift check
     // while its other paths are ordinary spending paths
     "or_i(and_v(v:@A,and_v(v:@AT,pk(@K))),pk(@K))",
